@@ -1,6 +1,6 @@
 """Layer `record` (C15): Console buffer / record / capture / export.
 
-One op, `hist`: arg = [cfg, ops, wf] with cfg = [width, is_terminal, color_system 0..3, legacy_windows],
+One op, `hist`: arg = [cfg, ops, wf] with cfg = [width, is_terminal, color_system 0..3, legacy_windows, no_color],
 ops = the calls to make (see TAGS), wf = 1 when the generator intends the history to satisfy the
 hypotheses of the text theorems (printed text free of escape/control characters; control strings and the
 text of control segments, styled or not, made of complete escape sequences).
@@ -145,11 +145,21 @@ def gen_history(rng, wf):
             ops.append([T_XHTML, rng.randint(0, 1), rng.randint(0, 1), rng.randint(0, 1)])
         if rng.random() < 0.08:
             ops += triple(rng)
+        if depth == 0 and rng.random() < 0.06:
+            ops += empty_block(rng)
     while depth > 0:
         ops.append([T_END])
         depth -= 1
     ops += triple(rng)
     return ops
+
+
+def empty_block(rng):
+    """a capture block whose result is the empty string (on a non-terminal for the control variants)"""
+    inner = rng.choice([[], [[T_LINE, 0]], [[T_BELL]], [[T_CLEAR, 1], [T_CONTROL, s2t("\x1b[2K")]],
+                        [[T_PRINT, 0, []]], [[T_PRINT, 1, [[[], [], 0]]]], [[T_CURSOR, 0]],
+                        [[T_PRINT, 0, [[s2t("\x1b[H"), [], 1]]]]])
+    return [[T_BEGIN, rng.randint(0, 1)]] + inner + [[T_END]]
 
 
 def triple(rng):
@@ -163,7 +173,7 @@ def generate(rng, tier):
     for _ in range(n):
         wf = 1 if rng.random() < 0.8 else 0
         cfg = [rng.choice([1, 2, 3, 5, 8, 10, 20, 40, 80]), rng.randint(0, 1), rng.randint(0, 3),
-               1 if rng.random() < 0.1 else 0]
+               1 if rng.random() < 0.1 else 0, 1 if rng.random() < 0.25 else 0]
         cases.append(("hist", [cfg, gen_history(rng, wf), wf]))
     return cases
 
@@ -200,12 +210,13 @@ class _Styles:
     def get(self, opt):
         return None if not opt else self.styles[opt[0]]
 
-    def table(self, cs, lw):
+    def table(self, cs, lw, nc=False):
         from rich.color import ColorSystem
         rows = []
         for i, s in enumerate(self.styles):
             t = i if i < NPAL else self.extra_base + i - NPAL
-            a = canon(s.render("\x00", color_system=cs, legacy_windows=lw)).split("\x00")
+            shown = s.without_color if (nc and cs and s) else s      # Segment.remove_color
+            a = canon(shown.render("\x00", color_system=cs, legacy_windows=lw)).split("\x00")
             b = canon(s.render("\x00")).split("\x00")
             rows.append([t, 1 if s else 0, s2t(a[0]), s2t(a[1]), s2t(b[0]), s2t(b[1]),
                          s2t(s.get_html_style(None)), [s2t(s.link)] if s.link else []])
@@ -223,10 +234,10 @@ class _R:
 def _mk_console(cfg):
     import io
     from rich.console import Console
-    width, term, cs, lw = cfg
+    width, term, cs, lw, nc = (list(cfg) + [0])[:5]
     return Console(record=True, file=io.StringIO(), width=width, force_terminal=bool(term),
                    color_system=[None, "standard", "256", "truecolor"][cs], legacy_windows=bool(lw),
-                   _environ={}, log_time=False, log_path=False, no_color=False)
+                   _environ={}, log_time=False, log_path=False, no_color=bool(nc))
 
 
 def _tee(console, sink):
@@ -249,6 +260,29 @@ def _useg(S, g):
     return [s2t(g.text), S.tok(g.style), 1 if g.is_control else 0]
 
 
+def _validate(ops):
+    """malformed cases (only the shrinker makes them) fail here, before any console call"""
+    for op in ops:
+        tag = op[0]
+        if tag == T_PRINT:
+            assert isinstance(op[1], int)
+            for t, st, c in op[2]:
+                assert all(isinstance(x, int) and 0 <= x < 0x110000 for x in t) and isinstance(c, int)
+                assert st == [] or (len(st) == 1 and 0 <= st[0] < NPAL)
+        elif tag in (T_TEXT, T_LOG, T_RULE, T_CONTROL):
+            assert all(isinstance(x, int) and 0 <= x < 0x110000 for x in op[1])
+            if tag == T_TEXT:
+                assert isinstance(op[2], int)
+        elif tag == T_LINE:
+            assert isinstance(op[1], int) and op[1] >= 0
+        elif tag in (T_CLEAR, T_CURSOR):
+            assert isinstance(op[1], int)
+        elif tag in (T_XTEXT, T_XHTML):
+            assert isinstance(op[1], int) and isinstance(op[2], int)
+        elif tag not in (T_BELL, T_BEGIN, T_END):
+            raise KeyError(tag)
+
+
 def _run(cfg, ops, S, capture=True):
     """-> (filled ops, observations)"""
     import os, tempfile
@@ -259,9 +293,8 @@ def _run(cfg, ops, S, capture=True):
     filled, obs = [], []
     caps = []
     pos = 0
-    for op in ops:
+    def call(op):
         tag = op[0]
-        del sink[:]
         ret = []
         snap = []
         fop = op
@@ -328,8 +361,24 @@ def _run(cfg, ops, S, capture=True):
             ret = [s2t(canon(text))]
             snap = [before, [_useg(S, g) for g in console._record_buffer]]
             fop = [tag, op[1], op[2]]
-        else:
-            raise KeyError(tag)
+        return fop, ret, snap
+
+    _validate(ops)
+    for op in ops:
+        del sink[:]
+        try:
+            fop, ret, snap = call(op)
+        except Exception as e:          # a console call raised: part of the observation, never swallowed
+            tag = op[0]
+            if tag in (T_PRINT, T_TEXT, T_LOG, T_RULE):
+                fop = [T_PRINT, op[1] if tag == T_PRINT else 1, [_useg(S, g) for g in sink]]
+            elif tag in (T_XTEXT, T_XHTML):
+                fop = [tag, op[1], op[2]]
+            elif tag in (T_BEGIN, T_END):
+                fop = [tag]
+            else:
+                fop = op
+            ret, snap = [s2t("!EXC:" + type(e).__name__)], []
         whole = console.file.getvalue()
         obs.append([s2t(canon(whole[pos:])), ret, snap])
         pos = len(whole)
@@ -346,7 +395,7 @@ def impl(op, arg):
     filled, obs = _run(cfg, ops, S, capture=True)
     _, twin = _run(cfg, ops, S, capture=False)
     cs = [None, ColorSystem.STANDARD, ColorSystem.EIGHT_BIT, ColorSystem.TRUECOLOR][cfg[2]]
-    return [S.table(cs, bool(cfg[3])), filled, obs, [o[0] for o in twin]]
+    return [S.table(cs, bool(cfg[3]), bool((list(cfg) + [0])[4])), filled, obs, [o[0] for o in twin]]
 
 
 # ---------------------------------------------------------------- checks on the implementation's output
@@ -392,6 +441,8 @@ def spec_cases(op, arg, out):
     cfg, wf = arg[0], arg[2] if len(arg) > 2 else 0
     table, filled, obs, twin = out
     cases = [("spec.replay", [KEEP_CTL[0], HREF_ESC[0], cfg, table, filled, obs])]
+    raised = any(o[1] and t2s(o[1][0]).startswith("!EXC:") for o in obs)
+    cases.append(("spec.no_exception", 0 if raised else 1))
     events = [[o[0], o[1]] for o in obs]
     cases.append(("spec.capture_silent", [filled, events]))
     for f, o in zip(filled, obs):
@@ -413,7 +464,7 @@ def spec_cases(op, arg, out):
 def describe(op, arg):
     try:
         cfg, ops = arg[0], arg[1]
-        return f"width={cfg[0]} terminal={cfg[1]} color_system={cfg[2]} legacy={cfg[3]}: " + ", ".join(
+        return f"width={cfg[0]} terminal={cfg[1]} color_system={cfg[2]} legacy={cfg[3]} no_color={(list(cfg) + [0])[4]}: " + ", ".join(
             TAGS.get(o[0], "?") for o in ops)
     except Exception:
         return None
